@@ -224,6 +224,10 @@ class Ctx:
                     self.broke("axioms", thm, f"depends on non-standard axioms {bad}")
                 else:
                     self.discharged.append(thm)
+        # the statements of the property theorems must be the locked ones
+        from . import statements
+        for d in statements.verify(modules):
+            self.broke("statement", d.split(":")[0], d)
         # forbidden tokens in the sources of everything under lean/Ahbicht
         for f in sorted((LEAN / "Ahbicht").rglob("*.lean")):
             src = _strip_comments(f.read_text())
